@@ -5,12 +5,13 @@ func init() {
 		ID: "C18",
 		Explanation: "Decides a structural necessary condition of deterministic generation: every source of unspecified order or run-to-run variation between a grammar text and the written files is enumerated from the type-checked source and discharged. " +
 			"ORDER: each range over a map in the import closure of gen and compiler is classified from its body (writes keyed by the unmodified range key, constant/set insertion, commutative accumulation, iteration-local state; or appends to a slice that is sorted before its next use; or diagnostics only); early exits, last-writer-wins stores with rewritten keys and unsorted collections are violations. " +
-			"GLOBALS: no store/map update rooted in a package-level variable outside init (earlier generations in the same process). NONDET: clock/rand/env/runtime calls, go statements and select are matched against an audited table. " +
+			"GLOBALS: no store/map update rooted in a package-level variable outside init (earlier generations in the same process); GLOBALS(append): no append whose destination may share its backing array with package-level data (may-alias analysis; a sub-slice of an init-time table). NONDET: clock/rand/env/runtime calls, go statements and select are matched against an audited table. " +
 			"Not decided: byte identity itself, stdlib determinism, the committed-files clause (that is the pinned TestGenerate).",
-		Rules: []string{"ORDER", "GLOBALS", "NONDET"},
+		Rules: []string{"ORDER", "GLOBALS", "GLOBALS(append)", "NONDET"},
 		Run: func(c *Ctx) {
 			ruleORDER(c)
 			ruleGLOBALS(c)
+			ruleGLOBALAPPEND(c)
 			ruleNONDET(c)
 		},
 	})
@@ -32,6 +33,7 @@ func init() {
 			c.MinCount("ALIAS", "util/set.", 4)
 			ruleUNIONCLONE(c)
 			ruleCOMPLCYCLE(c)
+			ruleKEYCOPY(c)
 		},
 	})
 	register(&Property{
@@ -80,12 +82,13 @@ func init() {
 	register(&Property{
 		ID: "C06",
 		Explanation: "Decides structural necessary conditions of behaviour-preserving minimization: GUARD(entry): minimize consults Grammar.Inputs so that entry states (referenced by index from generated Parse*/lookahead functions) stay apart. FIELDCOV(minimize): the rule-class key is built from LHS, RuleLen (as popped by the parser), action, node type and flags; every Tables field that holds or is indexed by state numbers is rewritten on the merge path; new Tables fields must be classified; the refinement signature contains own partition, edge symbol and target partition. " +
-			"MUSTPASS(compile-order): minimize runs after conflict resolution and before Optimize. Not decided: that Moore refinement yields a behaviourally equivalent automaton on all inputs.",
-		Rules: []string{"GUARD(entry)", "FIELDCOV(minimize)", "MUSTPASS(compile-order)"},
+			"MUSTPASS(compile-order): minimize runs after conflict resolution and before Optimize. KEYCOPY: the interning containers that partition states by signature store a copy of the signature, never the caller's (reusable) slice. Not decided: that Moore refinement yields a behaviourally equivalent automaton on all inputs.",
+		Rules: []string{"GUARD(entry)", "FIELDCOV(minimize)", "MUSTPASS(compile-order)", "KEYCOPY"},
 		Run: func(c *Ctx) {
 			ruleENTRYGUARD(c)
 			ruleMINIMIZE(c)
 			ruleCOMPILEORDER(c)
+			ruleKEYCOPY(c)
 		},
 	})
 }
@@ -108,12 +111,13 @@ func init() {
 	register(&Property{
 		ID: "C03",
 		Explanation: "Decides the structural clauses of 'conflict reports are exact': GUARD(conflict-accounting): the shift/reduce counter grows by len(conflict.Next) exactly under !Resolved and CanShift, the reduce/reduce counter under !Resolved and !CanShift. DTX(reportConflicts): for all 16 combinations of (sr = %expect, rr = %expect-rr, includeResolved, verbose) the summary error at the grammar origin is raised iff a count differs; the counts are exported. " +
-			"GUARD(unionclone) + ALIAS/ESCAPE over lalr: lookahead sets kept in states never share storage with the scratch buffer that the next union overwrites. DTX(ruleAction): which resolution is recorded per conflict. " +
+			"GUARD(unionclone) + ALIAS/ESCAPE over lalr: lookahead sets kept in states never share storage with the scratch buffer that the next union overwrites. DTX(ruleAction): which resolution is recorded per conflict. DTX(lr0-shift): a state with a reduction that receives its first shift loses its 'reduce without lookahead' status on every path. " +
 			"Not decided: LR(0) closure, lookback/follow propagation, the LALR(1) sets themselves — algorithmic, out of reach for this technique.",
-		Rules: []string{"GUARD(conflict-accounting)", "DTX(reportConflicts)", "GUARD(unionclone)", "ALIAS", "ESCAPE", "DTX(ruleAction)"},
+		Rules: []string{"GUARD(conflict-accounting)", "DTX(reportConflicts)", "DTX(lr0-shift)", "GUARD(unionclone)", "ALIAS", "ESCAPE", "DTX(ruleAction)"},
 		Run: func(c *Ctx) {
 			ruleCONFLICTCOUNT(c)
 			ruleREPORTCONFLICTS(c)
+			ruleLR0SHIFT(c)
 			ruleUNIONCLONE(c)
 			pk := map[string]bool{"lalr": true, "util/sparse": true}
 			ruleALIAS(c, pk)
